@@ -25,6 +25,7 @@ import h2.connection
 import h2.errors
 import h2.events
 import h2.exceptions
+import h2.settings
 import priority
 
 from twisted.internet._producer_helpers import _PullToPush
@@ -181,6 +182,8 @@ class H2Connection(Protocol, TimeoutMixin):
                 self._requestAborted(event)
             elif isinstance(event, h2.events.WindowUpdated):
                 self._handleWindowUpdate(event)
+            elif isinstance(event, h2.events.RemoteSettingsChanged):
+                self._handleRemoteSettingsChanged(event)
             elif isinstance(event, h2.events.PriorityUpdated):
                 self._handlePriorityUpdate(event)
             elif isinstance(event, h2.events.ConnectionTerminated):
@@ -663,8 +666,27 @@ class H2Connection(Protocol, TimeoutMixin):
             flow control window change.
         @type event: L{h2.events.WindowUpdated}
         """
-        streamID = event.stream_id
+        self._windowOpened(event.stream_id)
 
+    def _handleRemoteSettingsChanged(self, event):
+        """
+        Manage flow control windows when the peer changes its settings: a new
+        SETTINGS_INITIAL_WINDOW_SIZE moves the window of every stream.
+
+        @param event: The Hyper-h2 event that encodes the changed settings.
+        @type event: L{h2.events.RemoteSettingsChanged}
+        """
+        if h2.settings.SettingCodes.INITIAL_WINDOW_SIZE in event.changed_settings:
+            self._windowOpened(0)
+
+    def _windowOpened(self, streamID):
+        """
+        Wake up whatever is waiting for a flow control window to open.
+
+        @param streamID: The ID of the stream whose window changed, or 0 if
+            the change applies to all streams.
+        @type streamID: L{int}
+        """
         if streamID:
             if not self._streamIsActive(streamID):
                 # We may have already cleaned up our stream state, making this
